@@ -380,3 +380,44 @@ Proof.
   - destruct (sgen_step s o); [apply IH|reflexivity].
   - apply IH.
 Qed.
+
+(* ------------------------------------------------------------------------------------------ *)
+(** [ProfitFactor::calculate] reads both arguments through [abs]: the sign in which the caller
+    passes the gross losses is irrelevant, and the no-data guard looks at each argument alone -
+    wins and (signed) losses that cancel exactly give 1, not "no data". *)
+Lemma qabs_opp : forall x, qabs (- x) = qabs x.
+Proof.
+  intros x. destruct (Qclt_le_dec x 0) as [H|H].
+  - rewrite (qabs_nonpos x) by (apply Qclt_le_weak; exact H).
+    apply qabs_nonneg. apply Qclt_le_weak in H. apply Qcopp_le_compat in H.
+    replace (- 0) with 0 in H by ring. exact H.
+  - rewrite (qabs_nonneg x) by exact H.
+    rewrite qabs_nonpos; [ring|]. apply Qcopp_le_compat in H.
+    replace (- 0) with 0 in H by ring. exact H.
+Qed.
+
+Lemma Qceqb_opp0 : forall x, Qceqb (- x) 0 = Qceqb x 0.
+Proof.
+  intros x. destruct (Qceqb x 0) eqn:E.
+  - apply Qceqb_true in E. subst x. apply Qceqb_true. ring.
+  - apply Qceqb_false in E. apply Qceqb_false. intros H. apply E.
+    replace x with (- - x) by ring. rewrite H. ring.
+Qed.
+
+Lemma profit_factor_calc_sign : forall p l,
+  profit_factor_calc p (- l) = profit_factor_calc p l /\
+  profit_factor_calc (- p) l = profit_factor_calc p l.
+Proof.
+  intros p l. unfold profit_factor_calc. rewrite !Qceqb_opp0, !qabs_opp. split; reflexivity.
+Qed.
+
+Lemma profit_factor_calc_cancel : forall p, p <> 0 ->
+  profit_factor_calc p (- p) = Some (PFVal 1).
+Proof.
+  intros p Hp. destruct (profit_factor_calc_sign p p) as [E _]. rewrite E.
+  unfold profit_factor_calc. apply Qceqb_false in Hp. rewrite Hp. cbn [andb].
+  f_equal. f_equal. field. intros H.
+  assert (Hq : qabs p = 0) by exact H.
+  unfold qabs in Hq. apply Qceqb_false in Hp. destruct (Qcltb p 0); apply Hp;
+    [replace p with (- - p) by ring; rewrite Hq; ring|exact Hq].
+Qed.
